@@ -1,6 +1,8 @@
 """C14 - concurrent validation against shared models equals sequential validation."""
 import copy
 import json
+import os
+import time
 import itertools
 import sys
 import threading
@@ -152,10 +154,17 @@ def one_run(ctx, sut, fpm, monitors, injector, rng, idx):
     nthreads = rng.choice([2, 4, 4, 8])
     ncalls = rng.randint(10, ctx.params["calls"])
     pool = gv.batch_for_schema(rng, schema, schema, count=12)
+    # (large values have their own scenario, `size_runs`: under the line-level injector a list of hundreds of
+    # members in every call of every thread turns one run into minutes)
+    light = [value for value in pool if len(repr(value)) <= 1500]
+    if len(light) < len(pool):
+        ctx.count("values.too_large_for_injected_runs", len(pool) - len(light))
+    pool = light or [None, 1, "a", {}, []]
     lists = [[copy.deepcopy(rng.choice(pool)) for _ in range(ncalls)] for _ in range(nthreads)]
     case = {"spec": spec, "schema": None if spec is not None else schema, "threads": nthreads,
             "lists": [lst[:6] for lst in lists]}
     cold = idx % 2 == 0
+    lines_at_start = injector.lines
     if cold:
         # first-use races: the threads meet a tree nobody has validated against yet; the sequential
         # baseline ("as it would when run alone") comes from an independently built twin
@@ -165,12 +174,25 @@ def one_run(ctx, sut, fpm, monitors, injector, rng, idx):
             return
         ctx.count("runs.cold_tree")
         fp_before = fpm.fp_config(element)
-        base_before = [sequential(sut, fpm, twin, lst) for lst in lists]
+        base_before = []
+        for lst in lists:
+            base_before.append(sequential(sut, fpm, twin, lst))
+            if injector.lines - lines_at_start > 600000:
+                break
         fp_mid = fp_before
     else:
         fp_before = fpm.fp_config(element)
-        base_before = [sequential(sut, fpm, element, lst) for lst in lists]
+        base_before = []
+        for lst in lists:
+            base_before.append(sequential(sut, fpm, element, lst))
+            if injector.lines - lines_at_start > 600000:
+                break
         fp_mid = fpm.fp_config(element)
+    if injector.lines - lines_at_start > 600000:
+        # the sequential baseline alone executed this many lines: the same under threads and yields is beyond the
+        # budget of a run (decided on executed lines, not on time)
+        ctx.count("runs.too_heavy_for_injected_run")
+        return
     probability = rng.choice([0.02, 0.05, 0.1, 0.3])
     lines0, yields0 = injector.lines, injector.yields
     records, errors, stuck = concurrent(sut, fpm, element, lists, injector, probability)
@@ -396,6 +418,80 @@ def huge_int_runs(ctx, sut, fpm, injector):
                     return
 
 
+def cyclic_models(ctx, sut, fpm):
+    """Two models that refer to each other, wired up after their declaration as the documentation shows
+    (`A.properties["b"] = Property(B)`), validated by threads that enter the cycle through different models.
+    A thread which never comes back is judged on PROGRESS, not on time: all workers alive, none of them having
+    completed a call or moved to another line between samples taken seconds apart."""
+    from statham.schema.elements.meta import ObjectClassDict  # pylint: disable=import-outside-toplevel
+
+    body_a, body_b = ObjectClassDict(), ObjectClassDict()
+    body_a["name"] = sut.Property(sut.String())
+    body_b["label"] = sut.Property(sut.String(), required=True)
+    model_a = sut.ObjectMeta("CycleA", (sut.Object,), body_a)
+    model_b = sut.ObjectMeta("CycleB", (sut.Object,), body_b)
+    model_a.properties["b"] = sut.Property(model_b)
+    model_b.properties["a"] = sut.Property(model_a)
+    model_b.properties["others"] = sut.Property(sut.Array(model_a))
+    values_a = [{"name": "x", "b": {"label": "y", "a": {"name": "z", "b": {"label": "deep"}}}}, {"name": 1},
+                {"b": {"a": {}}}, {"name": "n", "b": {"label": "l", "others": [{"name": "o"}, {"b": {"label": "p"}}]}}]
+    values_b = [{"label": "l", "a": {"name": "n", "b": {"label": "m"}}}, {"a": {"name": "n"}},
+                {"label": "q", "others": [{"b": {"label": "r", "a": {"name": "s"}}}]}, {"label": 5}]
+    plans = [(model_a, values_a), (model_b, values_b)]
+    base = [[(sut.call(model, copy.deepcopy(v))[0]) for v in vals] for model, vals in plans]
+    nthreads, rounds = 8, 12
+    done = [0] * nthreads
+    wrong = []
+    barrier = threading.Barrier(nthreads)
+
+    def work(tid):
+        model, vals = plans[tid % 2]
+        try:
+            barrier.wait(timeout=30)
+        except threading.BrokenBarrierError:
+            return
+        for _ in range(rounds):
+            for pos, value in enumerate(vals):
+                outcome = sut.call(model, copy.deepcopy(value))[0]
+                if outcome != base[tid % 2][pos]:
+                    wrong.append((tid, pos, outcome, base[tid % 2][pos]))
+                done[tid] += 1
+
+    threads = [threading.Thread(target=work, args=(tid,), name=f"cyc{tid}", daemon=True) for tid in range(nthreads)]
+    old = sys.getswitchinterval()
+    sys.setswitchinterval(1e-6)
+    try:
+        for thread in threads:
+            thread.start()
+        total = rounds * len(values_a)
+        last, idle = None, 0
+        while any(t.is_alive() for t in threads):
+            time.sleep(0.5)
+            frames = sys._current_frames()  # pylint: disable=protected-access
+            state = (tuple(done), tuple((frames[t.ident].f_code.co_filename, frames[t.ident].f_lineno)
+                                        for t in threads if t.ident in frames))
+            idle = idle + 1 if state == last else 0
+            last = state
+            if idle >= 40:   # twenty seconds without a completed call or a line executed, in any worker
+                break
+    finally:
+        sys.setswitchinterval(old)
+    ctx.evaluation()
+    ctx.count("cyclic_models.runs")
+    ctx.count("cyclic_models.calls", sum(done))
+    if any(t.is_alive() for t in threads):
+        where = sorted({f"{os.path.basename(f)}:{line}" for f, line in last[1]})
+        ctx.witness("threads_never_return", {"cyclic_models": True},
+                    f"{sum(1 for t in threads if t.is_alive())} of {nthreads} threads validating two mutually "
+                    f"referential models made no progress (calls done per thread {done} of {total}; "
+                    f"standing at {where})"[:500])
+        return
+    if wrong:
+        tid, pos, got, want = wrong[0]
+        ctx.witness("concurrent_differs_from_sequential", {"cyclic_models": True},
+                    f"thread {tid} value {pos}: concurrent -> {got}; alone -> {want}")
+
+
 def size_runs(ctx, sut, fpm, injector):
     """Values of the sizes at which a library might switch to a guarded, chunked or timed code path (such
     paths tend to rely on facilities only the main thread has: signals, contexts)."""
@@ -467,18 +563,33 @@ def run_shard(ctx):
     from vlib import fingerprint as fpm  # pylint: disable=import-outside-toplevel
     from vlib import monitors, sut  # pylint: disable=import-outside-toplevel
 
-    cold_process(ctx, sut, fpm)
+    def timed(label, func, *args):
+        started = time.monotonic()
+        try:
+            return func(*args)
+        finally:
+            ctx.count("seconds." + label, round(time.monotonic() - started, 1))
+            ctx.count(f"seconds_by_shard.{ctx.shard:02d}", round(time.monotonic() - started, 1))
+
+    timed("cold_process", cold_process, ctx, sut, fpm)
+    timed("cyclic_models", cyclic_models, ctx, sut, fpm)
     ctx.signatures = set()
     injector = monitors.YieldInjector(0.0, f"{ctx.seed}/{ctx.shard}")
     injector.start()
     try:
-        format_runs(ctx, sut, fpm, injector)
-        numeric_runs(ctx, sut, fpm, injector)
-        huge_int_runs(ctx, sut, fpm, injector)
-        default_runs(ctx, sut, fpm, injector)
-        size_runs(ctx, sut, fpm, injector)
+        timed("format_runs", format_runs, ctx, sut, fpm, injector)
+        timed("numeric_runs", numeric_runs, ctx, sut, fpm, injector)
+        timed("huge_int_runs", huge_int_runs, ctx, sut, fpm, injector)
+        timed("default_runs", default_runs, ctx, sut, fpm, injector)
+        timed("size_runs", size_runs, ctx, sut, fpm, injector)
+        started = time.monotonic()
         for idx in range(ctx.params["runs"]):
+            run_started = time.monotonic()
             one_run(ctx, sut, fpm, monitors, injector, ctx.rng, idx)
+            if time.monotonic() - run_started > 15:
+                ctx.count(f"slow_generated_run.shard{ctx.shard:02d}.run{idx}", round(time.monotonic() - run_started))
+        ctx.count("seconds.generated_runs", round(time.monotonic() - started, 1))
+        ctx.count(f"seconds_by_shard.{ctx.shard:02d}", round(time.monotonic() - started, 1))
     finally:
         injector.stop()
     ctx.count("distinct_interleaving_signatures", len(ctx.signatures))
@@ -496,6 +607,10 @@ def replay(case, ctx):
         if case.get("size_run"):
             for _ in range(5):
                 size_runs(ctx, sut, fpm, injector)
+            return
+        if case.get("cyclic_models"):
+            for _ in range(3):
+                cyclic_models(ctx, sut, fpm)
             return
         if case.get("huge_int_run"):
             for _ in range(5):
